@@ -33,6 +33,9 @@ func amt(rng *rand.Rand) *big.Int {
 	}
 }
 
+var sporkFundedNoSection int
+var genSeq int
+
 // genConfig: a random CONSISTENT configuration with pairwise distinct entry identities.
 func genConfig(rng *rand.Rand) *genesis.GenesisConfig {
 	spork := rAddr(rng)
@@ -122,15 +125,40 @@ func genConfig(rng *rand.Rand) *genesis.GenesisConfig {
 	case 1:
 		add(types.SwapContract, map[types.ZenonTokenStandard]*big.Int{})
 	}
-	// another embedded contract with a balance (e.g. the accelerator)
-	if rng.Intn(3) == 0 {
-		add(types.AcceleratorContract, map[types.ZenonTokenStandard]*big.Int{types.ZnnTokenStandard: amt(rng)})
+	// other embedded contracts with a balance: any of them may be funded at genesis (accelerator, spork, token, htlc,
+	// bridge, liquidity, stake, sentinel), with or without the configuration section that belongs to it
+	for _, c := range types.EmbeddedContracts {
+		if c == types.PillarContract || c == types.PlasmaContract || c == types.SwapContract {
+			continue // their holdings are fixed by the pillar / fusion / swap sections above
+		}
+		// systematic part: the k-th generated configuration funds the (k mod n)-th embedded contract for sure, so that
+		// every contract is funded at genesis in every run, with and without its own configuration section (see sporks below)
+		focus := types.EmbeddedContracts[genSeq%len(types.EmbeddedContracts)]
+		if c == focus || rng.Intn(3) == 0 {
+			bal := map[types.ZenonTokenStandard]*big.Int{}
+			for _, z := range tokens {
+				if rng.Intn(3) != 0 {
+					bal[z] = new(big.Int).Add(amt(rng), big.NewInt(1))
+				}
+			}
+			add(c, bal)
+		}
 	}
-	// sporks
-	if rng.Intn(2) == 0 {
+	// sporks (section absent for the first of the two configurations that focus on the spork contract)
+	sporkSection := rng.Intn(2) == 0
+	if types.EmbeddedContracts[genSeq%len(types.EmbeddedContracts)] == types.SporkContract {
+		sporkSection = (genSeq/len(types.EmbeddedContracts))%2 == 1
+	}
+	genSeq++
+	if sporkSection {
 		cfg.SporkConfig = &genesis.SporkConfig{}
 		for i := rng.Intn(3); i > 0; i-- {
 			cfg.SporkConfig.Sporks = append(cfg.SporkConfig.Sporks, &definition.Spork{Id: rHash(rng), Name: fmt.Sprintf("spork-%d", i), Activated: rng.Intn(2) == 0, EnforcementHeight: uint64(1000 + rng.Intn(100))})
+		}
+	}
+	for _, b := range cfg.GenesisBlocks.Blocks {
+		if b.Address == types.SporkContract && cfg.SporkConfig == nil {
+			sporkFundedNoSection++
 		}
 	}
 	// tokens
